@@ -18,6 +18,7 @@ import (
 	"verif/mc/props/c13"
 	"verif/mc/props/c14"
 	"verif/mc/props/c15"
+	"verif/mc/props/c16"
 	"verif/mc/props/c17"
 	"verif/mc/props/c18"
 	"verif/mc/props/c19"
@@ -40,6 +41,7 @@ func main() {
 		"C13": c13.Prop,
 		"C14": c14.Prop,
 		"C15": c15.Prop,
+		"C16": c16.Prop,
 		"C17": c17.Prop,
 		"C18": c18.Prop,
 		"C19": c19.Prop,
